@@ -23,6 +23,7 @@ import (
 	"github.com/AdguardTeam/AdGuardDNS/internal/geoip"
 	"github.com/AdguardTeam/AdGuardDNS/internal/querylog"
 	"github.com/AdguardTeam/golibs/logutil/slogutil"
+	"github.com/miekg/dns"
 	"pgregory.net/rapid"
 	"verif.local/harness/vstat"
 )
@@ -85,7 +86,7 @@ func TestVerifC15Log(tt *testing.T) {
 		"debug-profile", "filtering-disabled", "logged-no-location", "logged-escaped-rule", "dropped-profile-logging-on",
 		"logged-both-req-blocked+resp-blocked", "logged-both-req-blocked+resp-allowed", "logged-both-req-allowed+resp-blocked",
 		"logged-both-req-allowed+resp-allowed", "logged-both-rewritten+resp-blocked", "logged-both-other-rule",
-		"logged-name-of-mixed-case-question", "logged-name-of-mixed-case-question-cname-rewritten", "near-miss-logging-differs", "near-miss-ip-logging-differs", "log-flip-by-device", "log-flip-by-anon", "concurrent-logged", "concurrent-profile-not-logged", "logged-asn-unknown")
+		"logged-rcode-above-15", "logged-name-of-mixed-case-question", "logged-name-of-mixed-case-question-cname-rewritten", "near-miss-logging-differs", "near-miss-ip-logging-differs", "log-flip-by-device", "log-flip-by-anon", "concurrent-logged", "concurrent-profile-not-logged", "logged-asn-unknown")
 	st.Finish(tt)
 
 	opts := vfsOpts{AccessHeavy: false, Drops: true}
@@ -278,7 +279,31 @@ func TestVerifC15Log(tt *testing.T) {
 			}
 
 			for k, e := range tr.QLog {
-				resp := tr.Writes[0]
+				// The response as the client receives it: through the wire
+				// (an extended RCODE is split between the header and the OPT
+				// record).
+				// The handler stack may hand the server a response without
+				// the OPT record; the server's normalisation step adds it for
+				// EDNS queries before the message is packed, which is mirrored
+				// here.
+				out := tr.Writes[0].Copy()
+				if r.EDNS && out.IsEdns0() == nil {
+					out.SetEdns0(1232, r.DO)
+				}
+
+				wire, perr := out.Pack()
+				if perr != nil {
+					fail("the response cannot be packed: %v", perr)
+				}
+
+				resp := &dns.Msg{}
+				if perr = resp.Unpack(wire); perr != nil {
+					fail("the response cannot be unpacked: %v", perr)
+				}
+
+				if resp.Rcode > 15 {
+					classes = append(classes, "logged-rcode-above-15")
+				}
 				if e.ProfileID != agd.ProfileID(pc.ID) || e.DeviceID != agd.DeviceID(dc.ID) {
 					fail("entry %d is attributed to %s/%s, request to %s/%s", k, e.ProfileID, e.DeviceID, pc.ID, dc.ID)
 				}
